@@ -82,17 +82,24 @@ Section Search.
         else RNorm (benv6 n x (2 * idx + 1 + (if N.ltb k x then 1 else 0)) (VInt (Z.of_N k)) VNil)
     end.
 
+  (* the search loop under ANY oracle that answers "getter" below nmax as ext_getN does (the caller of searchEytzinger
+     uses further externals) *)
+  Section AnyExt.
+  Variable ext : string -> list val -> option val.
+  Variable nmax : N.
+  Hypothesis ext_getter : forall i, (i < nmax)%N -> ext "getter" [VInt (Z.of_N i)] = ext_getN "getter" [VInt (Z.of_N i)].
+
   Lemma sb_iter f n x idx (e0 : env) :
     (e0 = benv4 n x idx \/ exists kv ev, e0 = benv6 n x idx kv ev) ->
-    Z.of_N n < 4611686018427387904 -> (idx < n)%N ->
-    exec prog ext_getN f sb_body e0 = biter_res n x idx.
+    Z.of_N n < 4611686018427387904 -> (idx < n)%N -> (n <= nmax)%N ->
+    exec prog ext f sb_body e0 = biter_res n x idx.
   Proof.
-    intros Hshape Hn Hidx.
+    intros Hshape Hn Hidx Hmax.
     assert (Hi : Z.of_N idx < 4611686018427387904) by lia.
     assert (HN : Z.to_N (Z.of_N idx) = idx) by apply N2Z.id.
     unfold biter_res.
     destruct Hshape as [->|[kv [ev ->]]]; unfold sb_body, benv4, benv6;
-      (go_run; unfold ext_getN at 1; go_cbn; rewrite HN;
+      (go_run; rewrite ext_getter by lia; unfold ext_getN at 1; go_cbn; rewrite HN;
        destruct (get idx) as [k|]; [|go_run; reflexivity];
        go_run; rewrite of_N_eqb;
        destruct (N.eqb_spec k x) as [->|Hne]; [reflexivity|];
@@ -106,10 +113,10 @@ Section Search.
   Lemma sb_loop_spec : forall F f n x idx e0,
     (e0 = benv4 n x idx \/ exists kv ev, e0 = benv6 n x idx kv ev) ->
     Z.of_N n < 4611686018427387904 ->
-    bsearch F get n x idx <> OutOfFuel -> (F < f)%nat ->
-    bloop_res x (bsearch F get n x idx) (exec prog ext_getN f sb_loop e0).
+    bsearch F get n x idx <> OutOfFuel -> (F < f)%nat -> (n <= nmax)%N ->
+    bloop_res x (bsearch F get n x idx) (exec prog ext f sb_loop e0).
   Proof.
-    induction F as [|F IH]; intros f n x idx e0 Hshape Hn Hdef Hf;
+    induction F as [|F IH]; intros f n x idx e0 Hshape Hn Hdef Hf Hmax;
       (destruct f as [|f]; [lia|]);
       unfold sb_loop; rewrite exec_for_S; fold sb_loop; cbn [bsearch] in *;
       (assert (Hc : eval e0 (ECmp CLt (EVar "index") (EVar "max")) = EV (VBool (Z.of_N idx <? Z.of_N n)))
@@ -118,31 +125,41 @@ Section Search.
       destruct (N.ltb_spec idx n) as [Hlt|Hge].
     - congruence.
     - eexists. reflexivity.
-    - rewrite (sb_iter (S f) n x idx e0 Hshape Hn Hlt). unfold biter_res.
+    - rewrite (sb_iter (S f) n x idx e0 Hshape Hn Hlt Hmax). unfold biter_res.
       destruct (get idx) as [k|]; [|reflexivity].
       destruct (N.eqb k x) eqn:Heq; [reflexivity|].
       rewrite exec_skip.
-      apply IH; [right; eexists; eexists; reflexivity|exact Hn|exact Hdef|lia].
+      apply IH; [right; eexists; eexists; reflexivity|exact Hn|exact Hdef|lia|exact Hmax].
     - eexists. reflexivity.
   Qed.
 
   (* Go's searchEytzinger (min = 0, as its only caller passes it) IS the model's search, for every getter oracle:
      a definite answer of the model with fuel F is the answer of the Go function under any interpreter fuel f > F *)
-  Theorem searchEytzinger_is_bsearch F f n x :
+  Theorem searchEytzinger_is_bsearch_ext F f n x :
     Z.of_N n < 4611686018427387904 ->
-    bsearch F get n x 0 <> OutOfFuel -> (F < f)%nat ->
-    call prog ext_getN f "searchEytzinger" [VInt 0; VInt (Z.of_N n); VInt (Z.of_N x)] = encb x (bsearch F get n x 0).
+    bsearch F get n x 0 <> OutOfFuel -> (F < f)%nat -> (n <= nmax)%N ->
+    call prog ext f "searchEytzinger" [VInt 0; VInt (Z.of_N n); VInt (Z.of_N x)] = encb x (bsearch F get n x 0).
   Proof.
-    intros Hn Hdef Hf. unfold call. rewrite prog_searchEytzinger. unfold fn_searchEytzinger.
+    intros Hn Hdef Hf Hmax. unfold call. rewrite prog_searchEytzinger. unfold fn_searchEytzinger.
     cbn [f_params f_body bind_params]. go_run.
     fold sb_body. fold sb_loop.
-    pose proof (sb_loop_spec F f n x 0%N (benv4 n x 0) (or_introl eq_refl) Hn Hdef Hf) as H.
+    pose proof (sb_loop_spec F f n x 0%N (benv4 n x 0) (or_introl eq_refl) Hn Hdef Hf Hmax) as H.
     unfold benv4 in H. change (Z.of_N 0) with 0 in H.
     destruct (bsearch F get n x 0) as [[|]| |] eqn:Hs; cbn [bloop_res] in H.
     - rewrite H. reflexivity.
     - destruct H as [e' ->]. go_run. reflexivity.
     - rewrite H. reflexivity.
     - congruence.
+  Qed.
+  End AnyExt.
+
+  Theorem searchEytzinger_is_bsearch F f n x :
+    Z.of_N n < 4611686018427387904 ->
+    bsearch F get n x 0 <> OutOfFuel -> (F < f)%nat ->
+    call prog ext_getN f "searchEytzinger" [VInt 0; VInt (Z.of_N n); VInt (Z.of_N x)] = encb x (bsearch F get n x 0).
+  Proof.
+    intros Hn Hdef Hf.
+    exact (searchEytzinger_is_bsearch_ext ext_getN n (fun _ _ => eq_refl) F f n x Hn Hdef Hf (N.le_refl n)).
   Qed.
 
   (* the model never runs out of fuel once n < 2^F; so for such n the two agree outright *)
